@@ -224,6 +224,20 @@ func (a *shiftAnalysis) transfer(in ssa.Instruction) {
 				return
 			}
 		}
+		if x.Op == token.SHL || x.Op == token.MUL {
+			// (x >> k) << k, (x / 2^k) * 2^k with k <= 3: x rounded down to a boundary inside the byte —
+			// the same alignment as x &^ (2^k - 1)
+			if inner, ok := x.X.(*ssa.BinOp); ok {
+				k1, ok1 := constInt(x.Y)
+				k2, ok2 := constInt(inner.Y)
+				if ok1 && ok2 && k1 == k2 && ((x.Op == token.SHL && inner.Op == token.SHR && k1 >= 1 && k1 <= 3) || (x.Op == token.MUL && inner.Op == token.QUO && (k1 == 2 || k1 == 4 || k1 == 8))) {
+					if c := a.get(inner.X); c != scUnk {
+						a.set(x, c)
+						return
+					}
+				}
+			}
+		}
 		if l == scUnk || r == scUnk {
 			return
 		}
